@@ -8,7 +8,8 @@ Engines
     reproduce the declaration/block skeleton of the real emit(parse(src)) exactly - i.e. the observed order of
     hoisted declarations is one the model allows; the real _promote_branch_decls is also run with *dictated*
     iteration orders against promote_if; sorted() sites against the model's insertion sort;
-  * property oracle: sha256 of the emitted text across PYTHONHASHSEED values (subprocesses), repeated and
+  * property oracle: sha256 of the emitted text across PYTHONHASHSEED values (subprocesses) and across dictated
+    iteration orders of the transpiler's sets (sorted / reverse / keyed pseudo-random: "another platform"), repeated and
     interleaved transpilations in one process, fresh processes - all byte-identical for every program inside
     the guard.
 """
@@ -23,7 +24,7 @@ from harness import common as C
 
 META = {
     "id": "C10",
-    "technique": "Coq proof (set-iteration oracle model of variable promotion; sorted() sites; inventory of set iterations and module state regenerated from the source by an ast walker) + extracted-model correspondence with parse()+emit() and with _promote_branch_decls under dictated iteration orders + sha256 oracle across PYTHONHASHSEED subprocesses / repeated / interleaved transpilations",
+    "technique": "Coq proof (set-iteration oracle model of variable promotion; sorted() sites; inventory of set iterations and module state regenerated from the source by an ast walker) + extracted-model correspondence with parse()+emit() and with _promote_branch_decls under dictated iteration orders + sha256 oracle across PYTHONHASHSEED subprocesses / dictated set iteration orders / repeated / interleaved transpilations",
     "level_text": "Theorems C10_* (coq/Props/C10.v): sorted() sites are order independent; promotion is independent of the set-iteration oracle for constructs (and whole programs of the modelled fragment) with at most one new name per branch, and refuted beyond (C10_promotion_order_refuted: the output order does depend on the oracle - known finding); only the ORDER can vary (C10_result_is_permutation); every set iteration found in the current parser.py/emitter.py by the translator is sorted, order-insensitive or modelled (C10_sites_accounted) and no function mutates module-level state (C10_no_module_state). The model is run against the real parse()+emit() skeleton and against _promote_branch_decls with dictated orders; the property itself is tested by sha256 across hash seeds, processes, repetitions and interleavings.",
     "level_note": "Trusted: Coq kernel, translator harness/gen/setsites.py (syntactic, fail-closed ast walker), extraction, OCaml driver, CPython's PYTHONHASHSEED as the source of set-order variation. CPython set internals are over-approximated by an arbitrary permutation oracle; absence of module-level state is shown statically for the two transpiler files (ast walk) and by observation (repeated / interleaved transpilations), not by proof about CPython.",
     "design_ref": "DESIGN.md section 4 C10, Appendix B.1, B.3",
@@ -683,14 +684,29 @@ def device_program(rng, skeleton=None, skeleton_ty=None):
 # ---------------------------------------------------------------------------------------------------------
 # running the implementation
 # ---------------------------------------------------------------------------------------------------------
-def transpile(sources, seed, texts=False, script=None):
+def transpile(sources, seed, texts=False, script=None, adv=None):
     payload = {"mode": "session" if script is not None else "transpile", "sources": sources, "texts": texts}
     if script is not None:
         payload["script"] = script
+    if adv:
+        payload["adv"] = adv
     r = C.run_impl("c10_impl.py", payload, env_extra={"PYTHONHASHSEED": str(seed)}, timeout=1200)
     if str(r.get("hashseed")) != str(seed):
         raise RuntimeError(f"runner reports hash seed {r.get('hashseed')} instead of {seed}")
+    if (r.get("adv") or None) != (adv or None):
+        raise RuntimeError(f"runner reports set order {r.get('adv')} instead of {adv}")
     return r
+
+
+def run_variant(sources, v, seed0, texts=False):
+    """v = ("seed", n): PYTHONHASHSEED=n;  ("adv", key): dictated set order `key` under PYTHONHASHSEED=seed0"""
+    if v[0] == "seed":
+        return transpile(sources, v[1], texts=texts)
+    return transpile(sources, seed0, texts=texts, adv=v[1])
+
+
+def vname(v):
+    return f"PYTHONHASHSEED={v[1]}" if v[0] == "seed" else f"set-order={v[1]}"
 
 
 def udiff(a, b, la, lb, limit=60):
@@ -780,12 +796,15 @@ def run(ctx: C.Ctx):
     sources = [p["src"] for p in progs]
 
     # ------------------------------------------------------------------ transpile under every seed (one process per seed)
+    adv_keys = ["asc", "desc", "k%d" % rng.randrange(10 ** 6)] + (["k%d" % rng.randrange(10 ** 6) for _ in range(3)] if thorough else [])
+    variants = [("seed", sd) for sd in seeds] + [("adv", k) for k in adv_keys]
+    v0 = variants[0]
     per_seed = {}
-    for sd in seeds:
-        per_seed[sd] = transpile(sources, sd, texts=(sd == seeds[0]))
-    probes = {sd: tuple(per_seed[sd]["probe"]) for sd in seeds}
+    for v in variants:
+        per_seed[v] = run_variant(sources, v, seeds[0], texts=(v == v0))
+    probes = {sd: tuple(per_seed[("seed", sd)]["probe"]) for sd in seeds}
     dist["distinct_set_orders_of_probe_set_across_seeds"] = len(set(probes.values()))
-    base = per_seed[seeds[0]]["results"]
+    base = per_seed[v0]["results"]
     evaluations = 0
     n_fail_transpile = 0
     for i, p in enumerate(progs):
@@ -802,11 +821,17 @@ def run(ctx: C.Ctx):
     # ------------------------------------------------------------------ property oracle 1: hash seeds
     def report(kind, p, a, b, sa, sb, what):
         # fetch both texts for the replay
-        ta = transpile([p["src"]], a, texts=True)["results"][0] if isinstance(a, int) else None
-        tb = transpile([p["src"]], b, texts=True)["results"][0] if isinstance(b, int) else None
-        diff = udiff(ta.get("cpp", ""), tb.get("cpp", ""), f"PYTHONHASHSEED={a}", f"PYTHONHASHSEED={b}") if ta and tb else []
-        ctx.fail(what, {"program": p["src"], "seeds": [a, b], "origin": p["origin"], "unified_diff": diff,
-                        "replay": f"PYTHONHASHSEED={a} vs {b}: PYTHONPATH=/repo/src python -c 'from Reduino.transpile.parser import parse; from Reduino.transpile.emitter import emit; print(emit(parse(open(F).read())))'"},
+        ta = run_variant([p["src"]], a, seeds[0], texts=True)["results"][0]
+        tb = run_variant([p["src"]], b, seeds[0], texts=True)["results"][0]
+        diff = udiff(ta.get("cpp", ""), tb.get("cpp", ""), vname(a), vname(b))
+        if b[0] == "seed":
+            how = (f"PYTHONHASHSEED={a[1]} vs {b[1]}: PYTHONPATH=/repo/src python -c 'import sys; from Reduino.transpile.parser import parse; "
+                   "from Reduino.transpile.emitter import emit; print(emit(parse(open(sys.argv[1]).read())))' program.py")
+        else:
+            how = ('echo \'{"mode": "transpile", "texts": true, "adv": "%s", "sources": [<program>]}\' | PYTHONHASHSEED=%s PYTHONPATH=/repo/src '
+                   'python harness/impl/c10_impl.py   (the name `set` of parser.py/emitter.py bound to a set subclass iterating in the dictated order)'
+                   % (b[1], seeds[0]))
+        ctx.fail(what, {"program": p["src"], "variants": [vname(a), vname(b)], "origin": p["origin"], "unified_diff": diff, "replay": how},
                  expected=f"sha256 {sa[:16]} (byte-identical text)", observed=f"sha256 {sb[:16]}", key=kind)
 
     n_in_guard = 0
@@ -814,22 +839,31 @@ def run(ctx: C.Ctx):
         if not p["in_guard"]:
             continue
         n_in_guard += 1
-        for sd in seeds[1:]:
+        for v in variants[1:]:
             evaluations += 1
-            sb = per_seed[sd]["results"][i]["sha"]
+            sb = per_seed[v]["results"][i]["sha"]
             if sb != p["ref"]["sha"]:
-                report("hashseed", p, seeds[0], sd, p["ref"]["sha"], sb,
-                       "emitted C++ differs between two hash seeds for a program inside the guard")
+                if v[0] == "seed":
+                    report("hashseed", p, v0, v, p["ref"]["sha"], sb,
+                           "emitted C++ differs between two hash seeds for a program inside the guard")
+                else:
+                    report("setorder", p, v0, v, p["ref"]["sha"], sb,
+                           "emitted C++ depends on the iteration order of the transpiler's sets for a program inside the guard")
                 break
     out_guard_varies = 0
+    out_guard_varies_adv = 0
     for i, p in enumerate(progs):
         if p["in_guard"]:
             continue
-        if len({per_seed[sd]["results"][i]["sha"] for sd in seeds}) > 1:
+        if len({per_seed[("seed", sd)]["results"][i]["sha"] for sd in seeds}) > 1:
             out_guard_varies += 1
+        if len({per_seed[v]["results"][i]["sha"] for v in variants}) > 1:
+            out_guard_varies_adv += 1
     dist["in_guard"] = n_in_guard
     dist["outside_guard"] = len(progs) - n_in_guard
     dist["outside_guard_varying_with_seed"] = out_guard_varies
+    dist["outside_guard_varying_with_seed_or_dictated_set_order"] = out_guard_varies_adv
+    dist["dictated_set_orders"] = adv_keys
 
     # ------------------------------------------------------------------ property oracle 2: one process, repeated and interleaved
     guard_idx = [i for i, p in enumerate(progs) if p["in_guard"] and p["ref"]["ok"]]
@@ -880,24 +914,24 @@ def run(ctx: C.Ctx):
     if have_model:
         cases, idx = [], []
         for si, s in enumerate(skels):
-            for sd in seeds:
-                r = per_seed[sd]["results"][si]
+            for v in variants:
+                r = per_seed[v]["results"][si]
                 if not r["ok"]:
-                    ctx.disagree("skeleton program rejected by the transpiler", s["src"], s.get("model0"), r)
+                    ctx.disagree("skeleton program rejected by the transpiler", {"program": s["src"], "variant": vname(v)}, s.get("model0"), r)
                     break
             else:
                 idx.append(si)
-        # observed texts: seed[0] has them; other seeds only when the sha differs
+        # observed texts: the first variant has them; other variants only when the sha differs
         need = {}
         for si in idx:
-            for sd in seeds[1:]:
-                if per_seed[sd]["results"][si]["sha"] != skels[si]["ref"]["sha"]:
-                    need.setdefault(sd, []).append(si)
-        texts = {(seeds[0], si): skels[si]["ref"]["cpp"] for si in idx}
-        for sd, lst in need.items():
-            rs = transpile([skels[si]["src"] for si in lst], sd, texts=True)["results"]
+            for v in variants[1:]:
+                if per_seed[v]["results"][si]["sha"] != skels[si]["ref"]["sha"]:
+                    need.setdefault(v, []).append(si)
+        texts = {(v0, si): skels[si]["ref"]["cpp"] for si in idx}
+        for v, lst in need.items():
+            rs = run_variant([skels[si]["src"] for si in lst], v, seeds[0], texts=True)["results"]
             for si, r in zip(lst, rs):
-                texts[(sd, si)] = r["cpp"]
+                texts[(v, si)] = r["cpp"]
         jobs = []
         for (sd, si), cpp in sorted(texts.items()):
             s = skels[si]
@@ -917,7 +951,7 @@ def run(ctx: C.Ctx):
             mo, ok = decode_model(m)
             if mo != obs:
                 ctx.disagree("declaration/block skeleton: no iteration order of the modelled sets explains the emitted text",
-                             {"program": s["src"], "hashseed": sd, "origin": s["origin"]}, mo, obs)
+                             {"program": s["src"], "variant": vname(sd), "origin": s["origin"]}, mo, obs)
             if ok != s["in_guard"]:
                 ctx.disagree("model guard depends on the oracle", s["src"], ok, s["in_guard"])
             seen_orders.setdefault(si, set()).add(json.dumps(obs))
@@ -1056,7 +1090,7 @@ def run(ctx: C.Ctx):
         "evaluations": evaluations + n_corr + n_prom + n_sorted,
         "distinct_nontrivial": len({p["src"] for p in progs if p.get("in_guard") and (p["origin"] != "device")}
                                    & {s["src"] for s in skels if sum(1 for _ in _iter_hoists(s.get("model0", {}))) > 0}) + multi + n_prom,
-        "rule": "skeleton programs: templates (k = 0..6 names first assigned in an if / if-else / if-elif-else / while / for / try body, at top level, in a function, in the main loop, nested) + seeded random nested programs; device programs: random subsets of every device class with 0..6 instances, callbacks, lists, multi-signature functions, tuple swaps; mixed = both. Every program is transpiled in one subprocess per hash seed, then in one process twice in a row, in reverse order between unrelated programs, shuffled, and (a sample) in fresh processes; sha256 of the text is compared. Non-trivial = in-guard programs that hoist at least one declaration, device programs whose sorted sites have >= 2 elements, and every dictated-order promotion case.",
+        "rule": "skeleton programs: templates (k = 0..6 names first assigned in an if / if-else / if-elif-else / while / for / try body, at top level, in a function, in the main loop, nested) + seeded random nested programs; device programs: random subsets of every device class with 0..6 instances, callbacks, lists, multi-signature functions, tuple swaps; mixed = both. Every program is transpiled in one subprocess per hash seed and per dictated set order (the name `set` of parser.py/emitter.py bound to a subclass iterating sorted / reverse sorted / in a keyed pseudo-random order), then in one process twice in a row, in reverse order between unrelated programs, shuffled, and (a sample) in fresh processes; sha256 of the text is compared. Non-trivial = in-guard programs that hoist at least one declaration, device programs whose sorted sites have >= 2 elements, and every dictated-order promotion case.",
         "samples": [skels[0]["src"], skels[len(skels) // 2]["src"], devs[0]["src"][:1500]],
         "distribution": dist,
         "guard": "model-decided (Order.guard on every construct met by Order.transl): every if/elif/else/try/except branch declares at most one new name (nested constructs included) and every new name of a while/for body is met as a declaration node in the body; programs outside the guard are still used for the correspondence but not for the byte-identity oracle (known finding F-C10-promotion-order)",
@@ -1066,7 +1100,7 @@ def run(ctx: C.Ctx):
                        "absence of module-level state: static ast inventory + observation, no proof about CPython",
                        "platform differences other than hash seeds (one CPython build here)"],
         "trusted_base": C.COMMON_TRUSTED + ["harness/gen/setsites.py (syntactic set-kind inference over parser.py/emitter.py, fail-closed)",
-                                            "harness/impl/c10_impl.py (runs parse()+emit(); OrderedNames dictates the iteration order of `var_declared - base`)",
+                                            "harness/impl/c10_impl.py (runs parse()+emit(); OrderedNames dictates the iteration order of `var_declared - base`; AdvSet dictates the iteration order of every set built through the name `set` in parser.py/emitter.py - set displays/comprehensions keep CPython's order)",
                                             "PYTHONHASHSEED as the only source of set-order variation exercised"],
     })
     ctx.assumptions += ["every iteration order of a Python set is some permutation of its elements (perm_oracle)",
